@@ -1590,6 +1590,9 @@ MANIFEST = {
             "computation is reproducible from the global seed whatever the clock read, the i-th generator it creates gets "
             "ithSeed(s,i) under every interleaving, IterationTerminationCondition depends on the number of polls only, the model's loop "
             "fuel is never the reason a run ends. "
+            "Tie-rich problem classes (grid of discrete spaces, lattice-valued real vectors) and a zero-extent dimension with the random "
+            "default projection are part of the planner pairs; every random engine outside ompl::RNG is listed from the source on each "
+            "run and compared with a vetted list. "
             "For all other planners determinism is observed: every single-threaded planner that can be constructed generically (geometric, "
             "control incl. Syclop, multilevel, XXL, PRM through growRoadmap/expandRoadmap, SPARS/SPARStwo through constructRoadmap, "
             "Thunder's SPARSdb::addPathToRoadmap) is run in "
@@ -1606,7 +1609,7 @@ MANIFEST = {
             "classes are not constructed (see notes/C20.md). F200 (copied RNG) and F201 (SPARSdb random_device) are fixed in /repo; "
             "F202/F203 (GNAT ordered exact distance ties by element address) are fixed as well and stay as a two-layout "
             "regression; F204 (halfNormalInt cast before clamping, INT_MIN for r_max = INT_MAX) is fixed too, its directed draws "
-            "stay as regressions; no open finding. "
+            "stay as regressions; open: F500 (LazyPRM/LazyPRMstar iterate pointer-keyed sets: heap-layout dependent under exact distance ties). "
             "PRM::constructRoadmap is wall-clock sliced by design and excluded; its grow/expand parts are driven.",
     "technique": "Lean 4 proof (state-machine equalities, bisimulation for the stale saved value, induction over oracle "
                  "computations) + bit-exact differential correspondence + two-process differential runs of planners",
